@@ -9,7 +9,7 @@ for f in glob.glob(src+'/*'):
     if b.startswith('.') or b in('confirm.log','suite.log','suite_with_change.txt') or b.endswith('.bak'): continue
     shutil.copy(f,dst)
 m=json.load(open(src+'/meta.json'))
-conf=open(src+'/confirm.log').read() if os.path.exists(src+'/confirm.log') else ''
+conf=open(src+'/confirm.log',errors='replace').read() if os.path.exists(src+'/confirm.log') else ''
 m['confirmed_by_me']={'how':'tools: /tmp/seed/confirm.sh in a scratch worktree of /repo (demo on unchanged tree passes, demo with patch fails, full suite with patch has no new failures)','result':[l for l in conf.split('\n') if l.startswith('RESULT') or 'CONFIRMED' in l]}
 m['check_result']={'detected':det,'note':note,'ran':f'tools/try_seed.sh /verif/seeded/{ID}-{k} {ID} (git -C /repo apply patch.diff; ./bin/govc check {ID}; git checkout)'}
 json.dump(m,open(dst+'/meta.json','w'),indent=1)
